@@ -131,5 +131,14 @@ CLAIMED = {
         'which follows (all lengths) from the two step lemmas discharged on the crc32c loop body sliced from the current source. Absent cells, slack inside '
         'cell_data and DAGs of more than 5 cells are outside the claim.',
    technique='bounded symbolic execution of the real source with z3 (SX) + inductive step lemmas on the AST-sliced crc32c loop body; replay on the untouched library'),
+ 'C15': dict(
+   text='Bounded symbolic execution of the real MessageAny/InternalMsgInfo/ExternalMsgInfo/ExternalOutMsgInfo/StateInit/TickTock/CurrencyCollection/'
+        'ExtraCurrencyCollection/wallet/NFT/HashUpdate code against specs/tlbspec.py (constructors quoted from block.tlb, linted against the repository copy): '
+        'for enumerated header kinds, address forms, Grams length classes, 0..2 extra currencies, 7 state-init shapes, body sizes around the remaining '
+        'capacity with 0..4 references, and maximal headers swept across the cell capacity, with ALL addresses, amounts, times, flags and cell contents '
+        'symbolic: serialize never fails, the cell is one of the valid block.tlb encodings of the message, deserialize(serialize(m)) = m, and EVERY valid '
+        'encoding (either side of each Either) is parsed to m; same for the stand-alone wrappers.',
+   note='Trusted: z3; specs/tlbspec.py, specs/dictspec.py, specs/cellspec.py. One Bool flag is symbolic per instance (each symbolic flag doubles the paths). '
+        'Headers that cannot fit a cell at all and addr_var are outside the claim.'),
 }
 NOT_APPLICABLE = {}
